@@ -83,6 +83,22 @@ def _check_chunk(cases):
                 except Exception as ex:
                     divs.append((exc_site(ex), False, "%s with %s on obs=%r fcst=%r: %r" % (name, what, c["o"], c["f"], ex),
                                  {"kind": "metric", "metric": name, "case": {"o": c["o"], "f": c["f"]}}))
+        # scale lemmas (Metrics!ScaleLemmas, checked by TLC): the same expected value with both series in a unit 10^5 times larger
+        for name in c.get("scaleBoth", []):
+            want = expr.ev(c["det"][name])
+            try:
+                with quiet():
+                    got = verif.metric.get(name).compute_from_obs_fcst(obs * 1e-5, fcst * 1e-5)
+                n += 1
+                undefined = want == "undef" or (isinstance(want, float) and np.isnan(want))
+                ok = (undefined and bool(np.isnan(got) or np.isinf(got))) or (not undefined and expr.agrees(want, got, rtol=1e-6, atol=1e-6))
+                if not ok:
+                    divs.append(("metric:%s:scaled" % name, False, "%s on obs=%r fcst=%r, both multiplied by 1e-5: expected %r (scale lemma) observed %r"
+                                 % (name, c["o"], c["f"], want, float(got)),
+                                 {"kind": "metric", "metric": name, "scale": 1e-5, "case": {"o": c["o"], "f": c["f"]}}))
+            except Exception as ex:
+                divs.append((exc_site(ex), False, "%s on obs=%r fcst=%r, both multiplied by 1e-5: %r" % (name, c["o"], c["f"], ex),
+                             {"kind": "metric", "metric": name, "case": {"o": c["o"], "f": c["f"]}}))
         # -m within: percentage of absolute errors in the event of the bin type (thresholds 1, 2)
         valid = ~(np.isnan(obs) | np.isnan(fcst))
         for bt, e in c.get("within", {}).items():
